@@ -24,11 +24,11 @@ type C20Case struct {
 	// Rival: the argument vector of a second invocation of the same wrapper
 	// (same name, same TMPDIR) that runs to completion — and fails — while the
 	// first one's wrapped program has started but not yet read its files
-	Rival []string `json:"rival_invocation,omitempty"`
-	Args    []string      `json:"args"`
-	Fault   string        `json:"fault,omitempty"`
-	FaultOn string        `json:"fault_on,omitempty"`
-	Sched   wire.Sched    `json:"schedule"`
+	Rival   []string   `json:"rival_invocation,omitempty"`
+	Args    []string   `json:"args"`
+	Fault   string     `json:"fault,omitempty"`
+	FaultOn string     `json:"fault_on,omitempty"`
+	Sched   wire.Sched `json:"schedule"`
 }
 
 const c20Dir = "w"
